@@ -186,6 +186,10 @@ class Seam(object):
         self._real_fcntl = so.fcntl
         so.os = OsProxy(so.os, self)
         so.fcntl = FcntlProxy(so.fcntl)
+        import c08_disp
+        from supervisor import loggers
+        self.syslog = c08_disp._FakeSyslog()
+        loggers.syslog = self.syslog
         self.count = 0
         self.options = so.ServerOptions()
 
@@ -195,7 +199,11 @@ class Seam(object):
 
     _autofiles = []
 
-    def start(self, cfgs, strip, nopen):
+    def start(self, cfgs, strip, nopen, loglevel='INFO', program_sections=None):
+        """program_sections: optional list of [program:x] option dicts; the ProcessConfig objects are then
+        produced by the real ServerOptions.processes_from_section from configuration text, and `cfgs`
+        says what that text configures (used by the judge)"""
+        del self.syslog.lines[:]
         for f in self._autofiles:
             if isinstance(f, str) and os.path.exists(f):
                 os.unlink(f)
@@ -209,7 +217,8 @@ class Seam(object):
         opts.pidhistory = {}
         opts.logger = _NullLogger()
         opts.strip_ansi = strip
-        opts.loglevel = loggers.LevelsByName.INFO
+        # [supervisord] loglevel: child logs and capture logs must not depend on it
+        opts.loglevel = getattr(loggers.LevelsByName, loglevel)
         opts.minfds = 64
         self.options = opts
         self.cfgs = cfgs
@@ -225,6 +234,7 @@ class Seam(object):
         opts.childlogdir = self.workdir
         opts.identifier = 'supervisor'
         self.cleared = [False] * len(cfgs)
+        self.dropped = [[0, 0] for _ in cfgs]    # bytes logged before the last clearProcessLogs
         self.header_errors = []
         for i, cfg in enumerate(cfgs):
             redirect, cap_out, cap_err, ev_out, ev_err = cfg[:5]
@@ -232,7 +242,7 @@ class Seam(object):
             rot = cfg[6] if len(cfg) > 6 and cfg[6] else (0, 0)
             auto = bool(cfg[7]) if len(cfg) > 7 else False
             listeners.append(bool(cfg[8]) if len(cfg) > 8 else False)
-            self.nolog.append(nolog)
+            self.nolog.append((nolog, nolog))
             self.rot.append(rot)
             out = os.path.join(self.workdir, 'p%d.out' % i)
             err = os.path.join(self.workdir, 'p%d.err' % i)
@@ -241,13 +251,18 @@ class Seam(object):
                     if os.path.exists(f + suffix):
                         os.unlink(f + suffix)
             self.paths.append((out, err))
-            if nolog:
+            if nolog and program_sections is None:
                 out = err = None
             if auto:
                 # stdout_logfile=AUTO / stderr_logfile=AUTO: named by the real create_autochildlogs()
                 from supervisor.datatypes import Automatic
                 out = err = Automatic
                 autos.append(i)
+            if program_sections is not None:
+                pc, per_chan_nolog = self._parse_program(i, program_sections[i], out, err)
+                pconfigs.append(pc)
+                self.nolog[-1] = per_chan_nolog
+                continue
             pconfigs.append((EventListenerConfig if listeners[-1] else ProcessConfig)(
                 opts, name='proc%d' % i, uid=None, command='/bin/sh', directory=None, umask=None,
                 priority=999, autostart=False, autorestart=False, startsecs=0, startretries=3,
@@ -294,6 +309,41 @@ class Seam(object):
         events.subscribe(events.ProcessLogEvent, self._on_plog)
         events.subscribe(events.ProcessCommunicationEvent, self._on_comm)
         self.written = [[] for _ in cfgs]    # per process: list of incarnations {'stdout': bytes, 'stderr': bytes}
+
+    def _parse_program(self, i, opt, out, err):
+        """[program:proc<i>] text -> ProcessConfig through the real parser; every per-channel field of the
+        result is compared with what the text says (an independent reading of the same values)"""
+        from supervisor.options import UnhosedConfigParser
+        units = {'': 1, 'KB': 1024, 'MB': 1024 * 1024}
+        lines = ['[program:proc%d]' % i, 'command=/bin/sh', 'autostart=false', 'startsecs=0',
+                 'redirect_stderr=%s' % ('true' if opt['redirect'] else 'false')]
+        want = {'redirect_stderr': opt['redirect']}
+        for chan, path in (('stdout', out), ('stderr', err)):
+            o = opt[chan]
+            lines.append('%s_logfile=%s' % (chan, 'NONE' if o['nolog'] else path))
+            lines.append('%s_events_enabled=%s' % (chan, 'true' if o['events'] else 'false'))
+            lines.append('%s_capture_maxbytes=%s' % (chan, o['capture']))
+            lines.append('%s_logfile_maxbytes=%s' % (chan, o['maxbytes']))
+            lines.append('%s_logfile_backups=%d' % (chan, o['backups']))
+            lines.append('%s_syslog=%s' % (chan, 'true' if o['syslog'] else 'false'))
+            num, unit = o['maxbytes'].rstrip('KMB'), o['maxbytes'][len(o['maxbytes'].rstrip('KMB')):]
+            cnum, cunit = o['capture'].rstrip('KMB'), o['capture'][len(o['capture'].rstrip('KMB')):]
+            want.update({chan + '_logfile': None if o['nolog'] or (chan == 'stderr' and opt['redirect']) else path,
+                         chan + '_events_enabled': o['events'], chan + '_capture_maxbytes': int(cnum) * units[cunit],
+                         chan + '_logfile_maxbytes': int(num) * units[unit], chan + '_logfile_backups': o['backups'],
+                         chan + '_syslog': o['syslog']})
+        parser = UnhosedConfigParser()
+        parser.read_string('\n'.join(lines) + '\n')
+        self.options.parse_warnings = []
+        pcs = self.options.processes_from_section(parser, 'program:proc%d' % i, 'proc%d' % i)
+        if len(pcs) != 1:
+            raise HarnessFailure('one [program:x] section gave %d process configs' % len(pcs))
+        pc = pcs[0]
+        for k in sorted(want):
+            if getattr(pc, k) != want[k]:
+                raise HarnessFailure('configuration text says %s = %r but ProcessConfig.%s is %r  (section: %s)'
+                                     % (k, want[k], k, getattr(pc, k), ' | '.join(lines[4:])))
+        return pc, (opt['stdout']['nolog'], opt['stderr']['nolog'] or opt['redirect'])
 
     def _index(self, process):
         for i, p in enumerate(self.procs):
@@ -448,6 +498,10 @@ class Seam(object):
         elif kind == 'clear':
             p = o[1]
             if self.procs[p].dispatchers:
+                whole = self.logs()
+                for ci, chan in enumerate(('stdout', 'stderr')):
+                    if self._disp_fd(self.procs[p], chan)[1] is not None:
+                        self.dropped[p][ci] += len(whole[p][ci])
                 self.cleared[p] = True
                 self.reopen_mark[p] = [None, None]
                 # the renamed copies are not part of the log any more either
@@ -568,9 +622,9 @@ class Seam(object):
             out += [kind, p, pid, ch, len(data)] + list(data)
         return out
 
-    def run(self, cfgs, strip, nopen, ops):
+    def run(self, cfgs, strip, nopen, ops, loglevel='INFO', program_sections=None):
         """-> (trace, info)"""
-        self.start(cfgs, strip, nopen)
+        self.start(cfgs, strip, nopen, loglevel, program_sections)
         trace = []
         for o in ops:
             self.op(o)
@@ -582,7 +636,8 @@ class Seam(object):
         info = {'logs': self.logs(), 'events': list(self.events), 'written': self.written,
                 'running': [bool(p.pid) for p in self.procs], 'cleared': list(self.cleared),
                 'full_logs': self.full_logs(), 'nolog': list(self.nolog), 'rot': list(self.rot),
-                'reopen_mark': [list(r) for r in self.reopen_mark], 'current': self.current_files()}
+                'reopen_mark': [list(r) for r in self.reopen_mark], 'current': self.current_files(),
+                'dropped': [list(r) for r in self.dropped], 'syslog': list(self.syslog.lines)}
         for i in range(len(self.procs)):
             for ci in range(2):
                 for f in self.moved[i][ci]:
@@ -636,15 +691,22 @@ def judge(cfgs, strip, info, begin, end):
                 want_nostrip += logged
                 want += strip_ref(logged) if strip else logged
             got = info['full_logs'][p][ci]
-            if (redirect and chan == 'stderr') or info['nolog'][p]:
+            nolog = info['nolog'][p][ci]
+            if (redirect and chan == 'stderr') or nolog:
                 if got:
                     bad.append((p, chan, 'bytes in a log file that is not configured'))
                 want = got = b''
             ok = got == want
-            if not ok and want.endswith(got):
-                if info['cleared'][p]:
+            if info['cleared'][p] and not nolog:
+                # clearProcessLogs emptied the file when `dropped` bytes had been logged: the file at the
+                # configured path holds exactly what was logged afterwards
+                ok = got == want[info['dropped'][p][ci]:]
+                if not ok and not (strip and b'\x1b' in want_nostrip):
+                    bad.append((p, chan, 'wrong: after clearProcessLogs the log file does not hold exactly what was '
+                                         'logged since (%d bytes, expected %d)' % (len(got), len(want) - info['dropped'][p][ci])))
                     ok = True
-                elif maxbytes and len(want) >= (backups + 1) * maxbytes and len(got) >= backups * maxbytes:
+            if not ok and want.endswith(got):
+                if maxbytes and len(want) >= (backups + 1) * maxbytes and len(got) >= backups * maxbytes:
                     ok = True      # rotation dropped the oldest backups, as configured
             if not ok:
                 if strip and b'\x1b' in want_nostrip and not maxbytes:
@@ -654,7 +716,7 @@ def judge(cfgs, strip, info, begin, end):
                 else:
                     bad.append((p, chan, 'wrong: log (backups + current file) is not the output in order'))
             mark = info['reopen_mark'][p][ci]
-            if isinstance(mark, int) and not info['cleared'][p] and not info['nolog'][p]:
+            if isinstance(mark, int) and not info['cleared'][p] and not nolog:
                 # the log file was renamed away and a reopen was requested while this channel had a dispatcher:
                 # from then on the output belongs in a new file at the configured path
                 cur = info['current'][p][ci]
@@ -665,12 +727,21 @@ def judge(cfgs, strip, info, begin, end):
                 elif cur != got[mark:]:
                     bad.append((p, chan, 'wrong: the file at the configured path does not hold exactly what was logged '
                                          'after the reopen'))
-            if ev and not cap and not info['cleared'][p] and not info['nolog'][p] and not maxbytes:
+            plog_n = len([1 for (k, pp, pid, ch, d) in info['events'] if k == 0 and pp == p and ch == CH_CODE[chan]])
+            if not ev and plog_n:
+                bad.append((p, chan, 'wrong: %d PROCESS_LOG events although %s_events_enabled is false' % (plog_n, chan)))
+            if ev and want_nostrip and not plog_n and not (redirect and chan == 'stderr'):
+                bad.append((p, chan, 'wrong: no PROCESS_LOG event although %s_events_enabled is true' % chan))
+            ncomm = len([1 for (k, pp, pid, ch, d) in info['events'] if k == 1 and pp == p and ch == CH_CODE[chan]])
+            nsec = sum(len(c08_disp.split_ref(inc[chan], begin, end, cap)[1]) for inc in info['written'][p])
+            if ncomm != nsec:
+                bad.append((p, chan, 'wrong: %d PROCESS_COMMUNICATION events for %d capture sections' % (ncomm, nsec)))
+            if ev and not cap and not info['cleared'][p] and not nolog and not maxbytes:
                 # PROCESS_LOG events of this channel carry the same bytes, with the writer's identity
                 data = b''.join(d for (k, pp, pid, ch, d) in info['events'] if k == 0 and pp == p and ch == CH_CODE[chan])
                 if data != got:
                     bad.append((p, chan, 'plog-differs'))
-            if ev and not cap and info['nolog'][p]:
+            if ev and not cap and nolog and not (redirect and chan == 'stderr'):
                 data = b''.join(d for (k, pp, pid, ch, d) in info['events'] if k == 0 and pp == p and ch == CH_CODE[chan])
                 if data != (strip_ref(want_nostrip) if strip else want_nostrip) and not (strip and b'\x1b' in want_nostrip):
                     bad.append((p, chan, 'plog-differs'))
@@ -690,16 +761,30 @@ def worker_init(workdir):
 
 
 def history_job(job):
-    """job = (cfgs, strip, nopen, ops) -> (trace or None, failure text or None, judge list)"""
-    cfgs, strip, nopen, ops = job
+    """job = (cfgs, strip, nopen, ops[, {'loglevel': name, 'sections': [program options]}])
+    -> (trace or None, failure text or None, judge list)"""
+    cfgs, strip, nopen, ops = job[:4]
+    extra = job[4] if len(job) > 4 and job[4] else {}
     try:
-        trace, info = _SEAM.run(cfgs, strip, nopen, ops)
+        trace, info = _SEAM.run(cfgs, strip, nopen, ops, extra.get('loglevel', 'INFO'), extra.get('sections'))
     except HarnessFailure as e:
         return None, str(e), []
     except Exception as e:      # the implementation raised out of spawn/read/reap
         import traceback
         return None, 'exception: ' + traceback.format_exc()[-1500:], []
-    return trace, None, judge(cfgs, strip, info, _TOK[0], _TOK[1])
+    verdicts = judge(cfgs, strip, info, _TOK[0], _TOK[1])
+    if extra.get('sections'):
+        # <channel>_syslog: the lines of the channel's output, and only those, prefixed with the program name
+        for i, sec in enumerate(extra['sections']):
+            for chan, mark in (('stdout', 'OUT'), ('stderr', 'ERR')):
+                on = sec[chan]['syslog'] and not (chan == 'stderr' and sec['redirect'])
+                seen = any(mark in l for l in info['syslog'])
+                if sec['redirect'] and chan == 'stderr':
+                    continue
+                if on != seen and not (sec['redirect'] and sec['stdout']['syslog']):
+                    verdicts.append((i, chan, 'wrong: %s_syslog is %s but syslog %s this channel\'s output'
+                                     % (chan, on, 'received' if seen else 'did not receive')))
+    return trace, None, verdicts
 
 
 def finish_job(job):
